@@ -9,6 +9,7 @@ import NfpmModel.Lemmas.RpmFilesLemmas
 import NfpmModel.Digest
 import NfpmModel.Props.C05
 import NfpmModel.Props.C03
+import NfpmModel.Props.C02
 import NfpmModel.Generated.G8WriteTgz
 import NfpmModel.Generated.G7Accepted
 import NfpmModel.Reviewed.G8WriteTgz
@@ -491,6 +492,67 @@ theorem deb_plan_to_bytes_and_back (H : Hashes) (fs : Bytes → Bytes) (now imt 
     unfold C03.shipAll at hs
     obtain ⟨p, hp, rfl⟩ := List.mem_map.mp hs
     exact hnl p hp
+
+/-- **deb control, from the configuration and the plan to the bytes and back** (C02, C03 and C04 composed): the control
+    file the model of deb.createControl renders from the configuration's leaves and the Installed-Size computed while
+    the data tar was written, shipped as `./control` in the control archive of the package, is found again by an
+    independent reader of the package, and the control format's own parser recovers from it exactly the configured
+    fields – with an Installed-Size that is the KiB figure of the regular-file bytes the data archive ships -/
+theorem deb_control_to_bytes_and_back (H : Hashes) (fs : Bytes → Bytes) (now imt : Int) (changelog : Bytes) (plan : List Content)
+    (l : Leaves) (hok : ∀ c ∈ plan, C03.debFileType c → C03.FileOK fs c)
+    (hwf : ∀ f ∈ debFields l (expKiB (C03.shipAll H (debData H fs now imt changelog plan))), C02.WfField f)
+    (mtime : Int) (zc zd : Bytes → Bytes) (uc ud : Bytes → Option Bytes) (hc : Pkg.Inverts uc zc) (hd : Pkg.Inverts ud zd)
+    (dataName : Bytes) (others : List Tar.Member) (chdr : Tar.Hdr) (sig : Option Ar.Member)
+    (hname : chdr.name = b!"./control")
+    (hcm : ∀ m ∈ others ++ [{ hdr := chdr, body := debControl l (debInstalledKiB H fs now imt changelog plan) }], Tar.MemberOK m)
+    (hdm : ∀ p ∈ debData H fs now imt changelog plan, Tar.MemberOK (toTar p.1 p.2))
+    (hcs : (zc (Tar.archive (others ++ [{ hdr := chdr, body := debControl l (debInstalledKiB H fs now imt changelog plan) }]))).length < 10 ^ 10)
+    (hds : Ar.MemberOK { name := dataName, body := zd (Tar.archive ((debData H fs now imt changelog plan).map (fun p => toTar p.1 p.2))) })
+    (hsig : ∀ s ∈ sig, Ar.MemberOK s) :
+    ∃ d, Pkg.readDeb uc ud (Pkg.debFile mtime zc zd dataName
+            (others ++ [{ hdr := chdr, body := debControl l (debInstalledKiB H fs now imt changelog plan) }])
+            ((debData H fs now imt changelog plan).map (fun p => toTar p.1 p.2)) sig) = some d
+      ∧ ∃ m ∈ d.control, m.hdr.name = b!"./control"
+          ∧ parseControl m.body = debFields l (expKiB (C03.shipAll H (debData H fs now imt changelog plan))) := by
+  refine ⟨_, Pkg.readDeb_debFile mtime zc zd uc ud hc hd dataName _ _ sig hcm ?_ hcs hds hsig, ?_⟩
+  · intro m hm
+    obtain ⟨p, hp, rfl⟩ := List.mem_map.mp hm
+    exact hdm p hp
+  · refine ⟨{ hdr := chdr, body := debControl l (debInstalledKiB H fs now imt changelog plan) }, by simp, hname, ?_⟩
+    simp only []
+    rw [C03.deb_installed_size_match H fs now imt changelog plan hok]
+    unfold debControl
+    apply C02.control_roundtrip _ _ hwf
+    simp [debFields]
+
+/-- **ipk, from the configuration and the plan to the bytes and back**: the data members the model of
+    ipk.populateDataTar writes for a plan and the control file rendered from the configuration's leaves, assembled into
+    the gzip-compressed outer tar, are recovered by an independent reader (decompressor, three tar readers); the control
+    format's parser gets back exactly the configured fields, with an Installed-Size (omitted when 0) that is the KiB
+    figure of the regular-file bytes the data archive ships -/
+theorem ipk_plan_to_bytes_and_back (H : Hashes) (fs : Bytes → Bytes) (now imt : Int) (plan : List Content) (l : Leaves)
+    (hwf : ∀ f ∈ ipkFields l (expKiB (C03.shipAll H (ipkData fs now imt plan))), C02.WfField f)
+    (mtime : Nat) (z : Bytes → Bytes) (u : Bytes → Option Bytes) (hz : Pkg.Inverts u z)
+    (others : List Tar.Member) (chdr : Tar.Hdr) (hname : chdr.name = b!"./control") (hm : mtime < 8 ^ 11)
+    (hcm : ∀ m ∈ others ++ [{ hdr := chdr, body := ipkControl l (ipkInstalledKiB fs now imt plan) }], Tar.MemberOK m)
+    (hdm : ∀ p ∈ ipkData fs now imt plan, Tar.MemberOK (toTar p.1 p.2))
+    (hcs : (z (Tar.archive (others ++ [{ hdr := chdr, body := ipkControl l (ipkInstalledKiB fs now imt plan) }]))).length < 8 ^ 11)
+    (hds : (z (Tar.archive ((ipkData fs now imt plan).map (fun p => toTar p.1 p.2)))).length < 8 ^ 11) :
+    ∃ c, Pkg.readIpk u (Pkg.ipkFile mtime z (others ++ [{ hdr := chdr, body := ipkControl l (ipkInstalledKiB fs now imt plan) }])
+            ((ipkData fs now imt plan).map (fun p => toTar p.1 p.2)))
+          = some (c, (ipkData fs now imt plan).map (fun p => toTar p.1 p.2))
+      ∧ ∃ m ∈ c, m.hdr.name = b!"./control"
+          ∧ parseControl m.body = ipkFields l (expKiB (C03.shipAll H (ipkData fs now imt plan))) := by
+  refine ⟨_, Pkg.readIpk_ipkFile mtime z u hz _ _ hm hcm ?_ hcs hds, ?_⟩
+  · intro m hmm
+    obtain ⟨p, hp, rfl⟩ := List.mem_map.mp hmm
+    exact hdm p hp
+  · refine ⟨{ hdr := chdr, body := ipkControl l (ipkInstalledKiB fs now imt plan) }, by simp, hname, ?_⟩
+    simp only []
+    rw [C03.ipk_installed_size_match H fs now imt plan]
+    unfold ipkControl
+    apply C02.control_roundtrip _ _ hwf
+    simp [ipkFields]
 
 /-- **apk, from the plan to the bytes and back**: the data items the model of apk.createFilesInsideTarGz computes from
     a plan, placed after any signature and control members, give – once the gzip members are decompressed and
